@@ -9,8 +9,8 @@ import sys
 import time
 
 VERIF = "/verif"
-REPO = "/repo"
-BUILD = os.path.join(VERIF, "build")
+REPO = os.environ.get("VERIF_REPO", "/repo")            # seeded-change trials point this at a scratch worktree
+BUILD = os.environ.get("VERIF_BUILD", os.path.join(VERIF, "build"))
 GO124 = "/root/go/pkg/mod/golang.org/toolchain@v0.0.1-go1.24.0.linux-amd64"
 SHIM = os.path.join(VERIF, "tc", "shim")
 NCPU = os.cpu_count() or 8
@@ -20,7 +20,7 @@ def base_env():
     e = dict(os.environ)
     e["PATH"] = GO124 + "/bin:" + e.get("PATH", "")
     e.update(GOTOOLCHAIN="local", GOFLAGS="-mod=mod", GOPROXY="off", GONOSUMDB="*",
-             GOCACHE=os.path.join(BUILD, "gocache"))
+             GOCACHE=os.environ.get("VERIF_GOCACHE", os.path.join(BUILD, "gocache")))
     e.pop("GOROOT", None)
     return e
 
@@ -30,7 +30,7 @@ _llgo = None
 
 def tree_hash():
     out = subprocess.run(
-        "cd /repo && git ls-files -co --exclude-standard -- cmd cl ssa internal xtool go.mod go.sum runtime targets"
+        "cd " + REPO + " && git ls-files -co --exclude-standard -- cmd cl ssa internal xtool go.mod go.sum runtime targets"
         " | LC_ALL=C sort | xargs -d '\\n' sha256sum 2>/dev/null | sha256sum | cut -c1-16",
         shell=True, capture_output=True, text=True).stdout.strip()
     return out
@@ -40,7 +40,8 @@ def llgo_path():
     """(Re)build llgo from /repo's working tree; cached by tree hash."""
     global _llgo
     if _llgo is None:
-        r = subprocess.run([os.path.join(VERIF, "tc", "build_llgo.sh")], capture_output=True, text=True, env=base_env())
+        e = base_env(); e["VERIF_REPO"] = REPO; e["VERIF_BUILD"] = BUILD
+        r = subprocess.run([os.path.join(VERIF, "tc", "build_llgo.sh")], capture_output=True, text=True, env=e)
         if r.returncode != 0:
             sys.stderr.write(r.stderr)
             raise RuntimeError("llgo build failed (the working tree does not compile)")
@@ -225,8 +226,9 @@ class Report:
             self.viol.append((key, what, replay))
 
     def finish(self):
-        os.makedirs(os.path.join(VERIF, "evidence"), exist_ok=True)
-        rd = os.path.join(VERIF, "replays", self.pid)
+        out_base = BUILD if os.environ.get("VERIF_TRIAL") else VERIF   # seeded-change trials must not touch the real evidence
+        os.makedirs(os.path.join(out_base, "evidence"), exist_ok=True)
+        rd = os.path.join(out_base, "replays", self.pid)
         os.makedirs(rd, exist_ok=True)
         for old in os.listdir(rd):
             if old.endswith(".json"):
@@ -256,7 +258,7 @@ class Report:
             "wall_s": round(time.time() - self.t0, 2), "violations": nviol,
         }
         ev["coverage"]["known_findings_reproduced"] = sorted(self.known_hit) + ["%s (%d listed inputs)" % (k, v[0]) for k, v in sorted(self.set_hits.items())]
-        with open(os.path.join(VERIF, "evidence", self.pid + ".json"), "w") as f:
+        with open(os.path.join(out_base, "evidence", self.pid + ".json"), "w") as f:
             json.dump(ev, f, indent=1, sort_keys=True)
         print("%s tier=%s violations=%d known=%d wall=%.1fs coverage: %s" % (
             self.pid, self.tier, nviol, len(self.known_hit) + sum(v[0] for v in self.set_hits.values()), time.time() - self.t0,
